@@ -300,7 +300,7 @@ def generate():
         # single assignment of everything the record is built from
         k2 = 2 if handled == "true" else 1
         want_counts = {"frame": 1, "f_globals": k2, "f_lineno": k2, "co_name": k2, "co_filename": k2, "depth": 1,
-                       "file_name": 1, "thread": 1, "process": 1, "elapsed": 1, "current_datetime": 1, "log_record": 1}
+                       "file_name": 1, "elapsed": 1, "current_datetime": 1, "log_record": 1}
         for k, v in want_counts.items():
             if stores.get(k, 0) != v:
                 raise Unsupported("local %s is assigned %d times (expected %d)" % (k, stores.get(k, 0), v))
@@ -310,10 +310,39 @@ def generate():
         for s in top:
             if isinstance(s, ast.Assign) and len(s.targets) == 1 and isinstance(s.targets[0], ast.Name):
                 defs[s.targets[0].id] = s.value
-        for k, want in (("file_name", "basename(co_filename)"), ("thread", "current_thread()"),
-                        ("process", "current_process()"), ("current_datetime", "aware_now()")):
+        for k, want in (("file_name", "basename(co_filename)"), ("current_datetime", "aware_now()")):
             if k not in defs or _src(defs[k]) != want:
                 raise Unsupported("%s = %s" % (k, _src(defs[k]) if k in defs else "?"))
+
+        # WHEN are the calling thread / process looked up?  `thread = current_thread()` as a statement of _log's own
+        # body is a lookup on every call; a module-level object, or a value kept in core.thread_locals, is stale
+        # for every later call whose thread / process (or their names) differ.
+        modlevel = {}
+        for node in tree.body:
+            if isinstance(node, ast.Assign) and len(node.targets) == 1 and isinstance(node.targets[0], ast.Name):
+                modlevel[node.targets[0].id] = _src(node.value)
+
+        def lookup_of(local, fresh):
+            assigns = []
+            for node in ast.walk(logfn):
+                if isinstance(node, ast.Assign) and any(isinstance(t, ast.Name) and t.id == local for t in node.targets):
+                    assigns.append(node)
+                elif isinstance(node, (ast.AugAssign, ast.AnnAssign, ast.NamedExpr)) and \
+                        isinstance(getattr(node, "target", None), ast.Name) and node.target.id == local:
+                    return "other"
+            if stores.get(local, 0) != len(assigns) or not assigns:
+                return "other"
+            if len(assigns) == 1 and assigns[0] in top and _src(assigns[0].value) == fresh and len(assigns[0].targets) == 1:
+                return "perCall"
+            if any("thread_locals" in _src(a.value) or any("thread_locals" in _src(t) for t in a.targets) for a in assigns):
+                return "cachedPerThread"
+            if len(assigns) == 1 and isinstance(assigns[0].value, ast.Name) and modlevel.get(assigns[0].value.id) == fresh:
+                return "atImport"
+            return "other"
+
+        body += "/-- when `_log` looks the calling thread / process up -/\n"
+        body += "def threadLookup : Lookup := .%s\n" % lookup_of("thread", "current_thread()")
+        body += "def processLookup : Lookup := .%s\n\n" % lookup_of("process", "current_process()")
         term, typ = Tr({"current_datetime": ("now", "int"), "start_time": ("start", "int")}).tr(defs["elapsed"])
         body += "/-- `elapsed = %s` -/\n" % _src(defs["elapsed"])
         body += "def elapsed (now start : Int) : Int := %s\n\n" % term
@@ -353,8 +382,9 @@ def generate():
 
         def arg_of(call, cname, attr, params_amap):
             params, amap = params_amap
-            if not (isinstance(call, ast.Call) and _src(call.func) == cname and not call.keywords and len(call.args) == len(params)):
-                raise Unsupported("record field built by " + _src(call))
+            if not (isinstance(call, ast.Call) and _src(call.func) == cname and not call.keywords and len(call.args) == len(params)) \
+                    or any(isinstance(x, ast.Starred) for x in call.args):
+                return call          # not understood: becomes Local.other (the theorem breaks, not the extractor)
             return call.args[params.index(amap[attr])]
 
         cf, ct, cp = ctor("RecordFile", ["name", "path"]), ctor("RecordThread", ["id", "name"]), ctor("RecordProcess", ["id", "name"])
